@@ -15,6 +15,8 @@ PID = 'C19'
 LEVEL = 'exploration'
 BUDGET = {'quick': 5000, 'thorough': 250000}
 CAP_S = {'quick': 150, 'thorough': 3000}
+# thorough tier only: 300 s x 8 coverage-guided libFuzzer campaigns over the same strategy and oracle (vlib/fuzz_driver.py)
+FUZZ = {'thorough': (300, 8)}
 RULE = ('case = triple (A, B, C) of hints: either a widening chain (B derived from A and C from B by replacing a class by a base, '
         'adding union members / Optional, widening a container ABC, dropping Annotated, Literal -> its type, fixed -> variadic tuple, '
         'covariant child widening, NewType/TypeVar -> supertype/bound) or unrelated random hints, plus 3 objects built to conform to A. '
